@@ -161,8 +161,11 @@ NoInlineStorage specialisation (N = 0, N = 1) passes `N != 0`, the primary templ
 def fcvWithInlineElements (N : Nat) : Bool := N != 0
 /-- `DefineDestructor<T, WithInlineElements>`: `!is_trivially_destructible<T>` or, without inline elements, `true` -/
 def defineDestructor (tdT withInline : Bool) : Bool := if withInline then !tdT else true
+/-- `DefineVectorDestructor<T, WithInlineElements, GrowingPolicy>`: a vector with a static growing policy always counts as
+having inline elements (repair of V23) -/
+def defineVectorDestructor (tdT withInline dynamicPolicy : Bool) : Bool := defineDestructor tdT (withInline || !dynamicPolicy)
 /-- `std::is_trivially_destructible<FixedCapacityVector<T, N>>` as the code stands -/
-def fcvTriviallyDestructible (N : Nat) (tdT : Bool) : Bool := !defineDestructor tdT (fcvWithInlineElements N)
+def fcvTriviallyDestructible (N : Nat) (tdT : Bool) : Bool := !defineVectorDestructor tdT (fcvWithInlineElements N) false
 
 /-! ## (e) noexcept specifications -/
 
